@@ -564,7 +564,10 @@ def pBatch : P BatchShape := fun r => do
 
 def showSlot (s : Slot) : String := (if s.vis = Vis.pub then "P:" else "S:") ++ s.lab
 
-/-- Are all labels distinct? (Run-time check of the naming scheme; quadratic, shapes are small.) -/
+/-- Are all labels distinct? (Run-time check of the naming scheme; quadratic, shapes are small.
+    Proved to return `true` on the allocation trace of every shape: `P3R.C14.allDistinct_uni`,
+    `allDistinct_batch` in `Props/C14Labels.lean`, via the structured labels of
+    `Model/PackingLabels.lean`.) -/
 def allDistinct : List Label → Bool
   | [] => true
   | a :: l => !(l.contains a) && allDistinct l
